@@ -113,7 +113,7 @@ def cli_build():
     """The workspace's command-line programs, built from /repo's current tree into /verif/harness/target-cli."""
     env = dict(ENV)
     env["CARGO_TARGET_DIR"] = CLI_TARGET
-    cmd = ["cargo", "build", "--release", "--offline", "-p", "dictgen", "-p", "compile", "-p", "map", "-p", "tokenize"]
+    cmd = ["cargo", "build", "--release", "--offline", "-p", "dictgen", "-p", "compile", "-p", "map", "-p", "tokenize", "-p", "train"]
     r = subprocess.run(cmd, cwd="/repo", env=env, timeout=3600, stdin=STDIN_NULL, stdout=subprocess.PIPE,
                        stderr=subprocess.PIPE, text=True)
     if r.returncode != 0:
